@@ -130,11 +130,15 @@ pub fn emit_sign(shape: &Shape, blob: &[u8], msg: &[u8], accept: bool) -> Option
 }
 
 pub fn emit_verify(hash: &str, msg: &[u8], sig: &[u8], pk: &[u8], cost: f64, tag: &str) -> [Out<()>; 3] {
+    emit_verify_kf(hash, msg, sig, pk, cost, tag, "")
+}
+
+pub fn emit_verify_kf(hash: &str, msg: &[u8], sig: &[u8], pk: &[u8], cost: f64, tag: &str, kf: &str) -> [Out<()>; 3] {
     let v = verify3(hash, msg, sig, pk);
     let mut l = Line::new("verify");
     l.str("hash", hash).hex("msg", msg).hex("sig", sig).hex("pk", pk).raw("verdict", &out_unit_json(&v[0]))
         .raw("verdict_vk_sig", &out_unit_json(&v[1])).raw("verdict_vk_ref", &out_unit_json(&v[2]))
-        .str("tag", tag).raw("cost", &format!("{:.2}", cost));
+        .str("tag", tag).raw("cost", &format!("{:.2}", cost)).str("kf", kf);
     if !is_sha(hash) {
         l.raw("nomodel", "true");
     }
@@ -142,10 +146,13 @@ pub fn emit_verify(hash: &str, msg: &[u8], sig: &[u8], pk: &[u8], cost: f64, tag
     v
 }
 
-pub fn run(seed: u64, thorough: bool) {
+pub fn run(seed: u64, thorough: bool, lite: bool) {
     let mut rng = Rng::new(seed ^ 0xE2E);
     let msgs = messages(&mut rng, thorough);
     for shape in shapes(&mut rng, thorough) {
+        if lite && (shape.sign_cost() > 4.0 || shape.heights().iter().any(|h| *h > 5)) {
+            continue;
+        }
         let mut sd = rng.bytes(shape.n());
         sd.resize(32, 0);
         let (sk, pk) = match emit_keygen(&shape, &sd) {
@@ -180,7 +187,7 @@ pub fn run(seed: u64, thorough: bool) {
             let msg = &msgs[(i + shape.levels.len()) % msgs.len()];
             if let Some(sig) = emit_sign(&shape, &blob, msg, true) {
                 let tall = shape.heights().iter().any(|h| *h > 5);
-                let v = if tall { verify3(shape.hash, msg, &sig, &pk) } else { emit_verify(shape.hash, msg, &sig, &pk, shape.sign_cost() / 20.0, "valid") };
+                let v = if tall { verify3(shape.hash, msg, &sig, &pk) } else { emit_verify_kf(shape.hash, msg, &sig, &pk, shape.sign_cost() / 20.0, "valid", kf_of(&shape)) };
                 let ok = v.iter().all(|x| *x == Out::Ok(()));
                 Line::new("oracle").str("name", "verify_after_sign").raw("ok", if ok { "true" } else { "false" })
                     .str("hash", shape.hash).raw("variants", &shape.variants_json()).str("c", &c.to_string())
